@@ -1036,6 +1036,7 @@ const SUBJECTS: &[(&str, &str, &str, u32)] = &[
     ("fse_fn_default", "fse", "fn_default", 1),
     ("fse_fn_fast", "fse", "fn_fast", 1),
     ("fse_par", "fse", "par", 4),
+    ("fse_par1k", "fse", "par1k", 4),
     ("fse_dict", "fse", "dict", 1),
     ("fse_log5", "fse", "log5", 1),
     ("fse_log15", "fse", "log15", 1),
@@ -1093,6 +1094,7 @@ fn make(name: &str) -> Box<dyn Codec> {
         "fse_fn_default" => Box::new(FseFn { cfg: None }),
         "fse_fn_fast" => Box::new(FseFn { cfg: Some(FseConfig::fast_compression()) }),
         "fse_par" => Box::new(FseObj { cfg: FseConfig { parallel_blocks: Some(4), block_size: 16 * 1024, ..FseConfig::default() }, dict: None }),
+        "fse_par1k" => Box::new(FseObj { cfg: FseConfig { parallel_blocks: Some(4), block_size: 1024, ..FseConfig::default() }, dict: None }),
         "fse_dict" => Box::new(FseObj { cfg: FseConfig::default(), dict: Some(b"the quick brown fox jumps over the lazy dog 0123456789".repeat(4)) }),
         "fse_log5" => Box::new(FseObj { cfg: FseConfig { table_log: 5, ..FseConfig::default() }, dict: None }),
         "fse_log15" => Box::new(FseObj { cfg: FseConfig { table_log: 15, ..FseConfig::default() }, dict: None }),
